@@ -131,8 +131,11 @@ class Parser:
         prim = {"usize": U, "u64": W, "bool": B, "u32": U32}
         if name in prim:
             return prim[name]
+        name = name.split("::")[-1] if name.split("::")[-1] in ("Option", "Result", "Vec", "Range") else name
         if name == "Option":
             return ("O", args[0])
+        if name == "Result":
+            return args[0]                                 # errors are outcomes (`err other`), not values
         if name == "Range":
             return ("T", [args[0], args[0]])
         if name == "Vec" and args == [W]:
@@ -194,10 +197,25 @@ class Parser:
         if self.at("return"):
             self.eat()
             e = None if self.at(";") else self.expr()
-            self.eat(";")
+            if not self.at("}"):                          # `return x` may end a block without `;`
+                self.eat(";")
             return ("return", e), False
-        if self.at("while", "for", "loop"):
-            raise Unsupported("loops are outside the translated subset")
+        if self.at("while") and self.peek(1)[1] != "let":
+            self.eat()
+            c = self.expr(nostruct=True)
+            b = self.block()
+            return ("while", c, b), False
+        if self.at("loop"):
+            self.eat()
+            b = self.block()
+            return ("while", ("bool", True), b), False
+        if self.at("break"):
+            self.eat()
+            if not self.at("}"):
+                self.eat(";")
+            return ("break",), False
+        if self.at("while", "for"):
+            raise Unsupported("`for` / `while let` loops are outside the translated subset")
         e = self.expr()
         if self.at("=", "+=", "-=", "*=", "/=", "%=", "&=", "|=", "^=", "<<=", ">>=") and self.peek()[0] == "op":
             op = self.eat()[1]
@@ -207,7 +225,7 @@ class Parser:
         if self.at(";"):
             self.eat()
             return ("expr", e), False
-        if e[0] in ("if", "blockexpr", "match") and not self.at("}"):
+        if e[0] in ("if", "blockexpr", "match", "iflet") and not self.at("}"):
             return ("expr", e), False                          # block-like expression used as a statement
         return e, True
 
@@ -318,6 +336,20 @@ class Parser:
             return ("blockexpr", b)
         if v == "{":
             return ("blockexpr", self.block())
+        if v == "if" and self.peek(1)[1] == "let":
+            self.eat(); self.eat()
+            ctor = self.eat()[1]
+            if ctor != "Some":
+                raise Unsupported("`if let` with a pattern other than Some(x)")
+            self.eat("(")
+            var = self.eat()[1]
+            self.eat(")")
+            self.eat("=")
+            scrut = self.expr(nostruct=True)
+            body = self.block()
+            if self.at("else"):
+                raise Unsupported("`if let … else`")
+            return ("iflet", var, scrut, body)
         if v == "if":
             self.eat()
             c = self.expr(nostruct=True)
@@ -342,6 +374,22 @@ class Parser:
                     self.eat()
             self.eat("}")
             return ("match", scrut, arms)
+        if k == "str":
+            self.eat()
+            return ("str", v)
+        if v == "<":
+            depth, txt = 0, ""
+            while True:
+                kk, vv = self.eat()
+                depth += {"<": 1, ">": -1, ">>": -2}.get(vv, 0)
+                txt += vv
+                if depth <= 0:
+                    break
+            path = [txt]
+            while self.at("::"):
+                self.eat()
+                path.append(self.eat()[1])
+            return ("path", path)
         if v in ("true", "false"):
             self.eat()
             return ("bool", v == "true")
@@ -350,6 +398,18 @@ class Parser:
             path = [v]
             while self.at("::"):
                 self.eat()
+                if self.at("<"):                                  # turbofish: kept as text on the previous segment
+                    depth, txt = 0, ""
+                    while True:
+                        kk, vv = self.eat()
+                        if vv == "<": depth += 1
+                        if vv == ">>": depth -= 2
+                        if vv == ">": depth -= 1
+                        txt += vv
+                        if depth <= 0:
+                            break
+                    path[-1] += "::" + txt
+                    continue
                 path.append(self.eat()[1])
             if self.at("!") and self.peek(1)[1] == "(":
                 self.eat()
@@ -478,6 +538,8 @@ class Emitter:
         self.env = {}            # rust local -> (lean name, type)
         self.selfmut = bool(cfg.get("self") and cfg["self"].get("mut"))
         self.ret = None
+        self.loop = None          # inside a loop body: the tuple pattern of the loop state
+        self.nloops = 0
 
     def fresh(self):
         self.n += 1
@@ -488,12 +550,26 @@ class Emitter:
         s = self.cfg["self"]
         return "(⟨" + ", ".join("self_" + f for f in s["order"]) + "⟩ : %s)" % s["lean"]
 
-    def wrap_return(self, val, ty):
+    def ret_expr(self, val, ty):
+        if self.cfg.get("reader"):
+            return "(%s, %s)" % (val if val is not None else "()", self.cfg["reader"])
         if self.selfmut:
             if ty == UNIT or val is None:
-                return "return %s" % self.self_value()
-            return "return (%s, %s)" % (val, self.self_value())
-        return "return %s" % (val if val is not None else "()")
+                return self.self_value()
+            return "(%s, %s)" % (val, self.self_value())
+        return val if val is not None else "()"
+
+    def wrap_return(self, val, ty):
+        """a `return` statement, or the value at the end of the function body"""
+        if self.loop is not None:
+            return "pure (Ctl.ret %s)" % self.ret_expr(val, ty)
+        return "return %s" % self.ret_expr(val, ty)
+
+    def fallthrough(self):
+        """the end of the function body (unit value), or of one iteration of a loop body"""
+        if self.loop is not None:
+            return "pure (Ctl.next %s)" % self.loop
+        return self.wrap_return(None, UNIT)
 
     # --- expressions: returns (lean_expr, type); monadic parts are bound into `pre`
     def lit(self, v, ty):
@@ -532,8 +608,13 @@ class Emitter:
                 return self.env[e[1][0]]
             if name == "self" and self.cfg.get("self") and not self.selfmut:
                 return self.cfg["self"]["var"], ("N", self.cfg["self"].get("rust", "Self"))
+            if name == "usize::MAX":
+                return "(U64 - 1)", U
             if name == "None":
                 return "none", ("O", want[1] if want and want[0] == "O" else None)
+            qual = "::".join(x.split("::<")[0] for x in e[1])
+            if qual in self.consts:
+                return str(self.consts[qual]), U
             cname = e[1][-1]
             if cname in self.consts and cname.isupper():
                 return str(self.consts[cname]), U
@@ -623,7 +704,17 @@ class Emitter:
                 return "(some %s)" % v, ("O", ty)
             return self.call(key, e[2], pre, want, extra_exprs=extra)
         if k == "try":
+            if e[1][0] == "call":
+                try:
+                    ck, _ = self.callee_key(e[1][1])
+                except Unsupported:
+                    ck = None
+                cent = self.cfg.get("calls", {}).get(ck) or self.calls.get(ck)
+                if cent and cent.get("load"):
+                    return self.expr(e[1], pre)                        # `?` on an io::Result: errors are outcomes already
             v, ty = self.expr(e[1], pre)
+            if self.cfg.get("reader") and not (ty and ty[0] == "O"):
+                return v, ty
             if not (ty and ty[0] == "O"):
                 raise Unsupported("`?` on a non-Option")
             t = self.fresh()
@@ -665,8 +756,13 @@ class Emitter:
             a, _ = self.expr(e[2], pre, B)
             p2 = []
             b, _ = self.expr(e[3], p2, B)
-            if p2:
-                raise Unsupported("effectful right operand of %s" % op)
+            if p2:                                                   # the right operand is only evaluated when needed
+                t = self.fresh()
+                if op == "&&":
+                    pre.append(("ifm", t, a, p2, b, [], "false"))
+                else:
+                    pre.append(("ifm", t, a, [], "true", p2, b))
+                return t, B
             return "(%s %s %s)" % (a, op, b), B
         cmp = op in ("==", "!=", "<", ">", "<=", ">=")
         hint = None if cmp else want
@@ -750,7 +846,12 @@ class Emitter:
         # typed receiver: key by type name
         if ty and ty[0] == "N":
             key = "<%s>.%s" % (ty[1], name)
-            if key in self.calls or key in self.cfg.get("calls", {}):
+            ent = self.cfg.get("calls", {}).get(key) or self.calls.get(key)
+            if ent and ent.get("mutrecv"):
+                code = ent["lean"].format(v)
+                self.assign_place(recv, code, pre)
+                return "()", UNIT
+            if ent:
                 return self.call(key, args, pre, want, recv_val=v)
         raise Unsupported("method .%s on %r (key %s)" % (name, ty, try_key))
 
@@ -758,6 +859,12 @@ class Emitter:
         ent = self.cfg.get("calls", {}).get(key) or self.calls.get(key)
         if not ent:
             raise Unsupported("call to %s is not in the call table" % key)
+        if ent.get("load"):
+            # `T::load(reader)?` — the callee returns the value and the rest of the stream
+            t = self.fresh()
+            rd = self.cfg["reader"]
+            pre.append("let (%s, %s) ← %s" % (t, rd, ent["lean"].format(rd)))
+            return t, ent["ret"]
         vals = []
         if recv_val is not None:
             vals.append(recv_val)
@@ -765,8 +872,17 @@ class Emitter:
             vals.append(self.expr(x, pre, U)[0])
         argtys = ent.get("args")
         for i, a in enumerate(args):
+            if i in ent.get("ignore_args", ()):
+                vals.append("_")
+                continue
             vals.append(self.expr(a, pre, argtys[i] if argtys else None)[0])
         code = ent["lean"].format(*vals, self=self.self_value() if self.selfmut else (self.cfg["self"]["var"] if self.cfg.get("self") else ""))
+        if ent.get("load"):
+            # `T::load(reader)?` — the callee returns the value and the rest of the stream
+            t = self.fresh()
+            rd = self.cfg["reader"]
+            pre.append("let (%s, %s) ← %s" % (t, rd, ent["lean"].format(rd)))
+            return t, ent["ret"]
         if ent.get("setvar"):
             if ent.get("monadic", True):
                 pre.append("let %s ← %s" % (ent["setvar"], code))
@@ -813,7 +929,7 @@ class Emitter:
         for s in block[1]:
             if s[0] == "assign":
                 p = s[1]
-                while p[0] in ("index", "paren"):
+                while p[0] in ("index", "paren") or (p[0] == "field" and p[1] != ("path", ["self"])):
                     p = p[1]
                 if p[0] == "field" and p[1] == ("path", ["self"]):
                     acc.add("self_" + p[2])
@@ -821,6 +937,8 @@ class Emitter:
                     acc.add(self.env[p[1][0]][0] if p[1][0] in self.env else p[1][0])
             elif s[0] == "expr":
                 self.assigned_expr(s[1], acc)
+            elif s[0] == "while":
+                self.assigned(s[2], acc)
             elif s[0] == "let":
                 pass
         return acc
@@ -852,6 +970,27 @@ class Emitter:
                 elif p[0] == "path":
                     acc.add(self.env[p[1][0]][0] if p[1][0] in self.env else p[1][0])
 
+    def is_err(self, e):
+        """`Err(<anything>)`: the function returns a `Result`"""
+        return e[0] == "call" and e[1] == ("path", ["Err"])
+
+    def err_fault(self, e):
+        """the outcome of `return Err(x)`: `Error::new(ErrorKind::InvalidData, _)` is `err invalid`, `UnexpectedEof` is
+        `err eof`, a `&str` / `String` error is `err other`"""
+        a = e[2][0] if e[2] else None
+        if a and a[0] == "call" and a[1][0] == "path" and a[1][1][-2:] == ["Error", "new"] and a[2] and a[2][0][0] == "path":
+            kind = a[2][0][1][-1]
+            return {"InvalidData": "fault (.err .invalid)", "UnexpectedEof": "fault (.err .eof)"}.get(kind, "fault (.err .other)")
+        return "fault (.err .other)"
+
+    def ok_value(self, e):
+        if e[0] == "call" and e[1] == ("path", ["Ok"]) and len(e[2]) == 1 and e[2][0] != ("tuple", []):
+            return e[2][0]
+        return None
+
+    def is_ok_unit(self, e):
+        return e[0] == "call" and e[1] == ("path", ["Ok"]) and len(e[2]) == 1 and e[2][0] == ("tuple", [])
+
     def unit_block(self, b):
         return b[2] is None or self.unit_if(b[2])
 
@@ -871,9 +1010,17 @@ class Emitter:
         return b
 
     def diverges(self, block):
-        if block[2] is not None:
+        """every path through the block ends in `return`"""
+        last = block[2] if block[2] is not None else (block[1][-1] if block[1] else None)
+        if last is None:
             return False
-        return bool(block[1]) and block[1][-1][0] == "return"
+        if block[2] is None and last[0] in ("return", "break"):
+            return True
+        if last[0] == "expr":
+            last = last[1]
+        if last[0] == "if" and last[3] is not None:
+            return self.diverges(last[2]) and self.diverges(last[3])
+        return False
 
     def flush(self, pre, out, ind):
         """write pending monadic bindings"""
@@ -924,9 +1071,25 @@ class Emitter:
             elif k == "assign":
                 self.assign(s, pre)
                 self.flush(pre, out, ind)
+            elif k == "return" and s[1] is not None and self.is_err(s[1]):
+                out.append(ind + self.err_fault(s[1]))
+                return
+            elif k == "break":
+                if self.loop is None:
+                    raise Unsupported("`break` outside a loop")
+                out.append(ind + "pure (Ctl.brk %s)" % self.loop)
+                return
+            elif k == "while":
+                self.while_stmt(s, (stmts[idx + 1:], tail), out, ind, is_fn_body)
+                return
+            elif k == "return" and s[1] is not None and self.ok_value(s[1]) is not None:
+                v, ty = self.expr(self.ok_value(s[1]), pre, self.ret)
+                self.flush(pre, out, ind)
+                out.append(ind + self.wrap_return(v, ty))
+                return
             elif k == "return":
                 if s[1] is None:
-                    out.append(ind + self.wrap_return(None, UNIT))
+                    out.append(ind + (("pure (Ctl.ret %s)" % self.ret_expr(None, UNIT)) if self.loop is not None else self.wrap_return(None, UNIT)))
                 else:
                     v, ty = self.expr(s[1], pre, self.ret)
                     self.flush(pre, out, ind)
@@ -938,6 +1101,24 @@ class Emitter:
                     rest = (stmts[idx + 1:], tail)
                     if self.if_stmt(e, rest, out, ind, is_fn_body):
                         return
+                elif e[0] == "iflet":
+                    # `if let Some(x) = e { body }` where the body assigns nothing and leaves only through `return Err(..)`
+                    # (a fault propagates through the monad, so the body is a unit-valued block)
+                    body = self.norm(e[3])
+                    if body[2] is not None or self.assigned(body, set()):
+                        raise Unsupported("`if let` body with a value or assignments")
+                    sv, sty = self.expr(e[2], pre)
+                    self.flush(pre, out, ind)
+                    if not (sty and sty[0] == "O"):
+                        raise Unsupported("`if let Some` on a non-Option")
+                    out.append(ind + "match %s with" % sv)
+                    out.append(ind + "| some %s => do" % lname(e[1]))
+                    saved = dict(self.env)
+                    self.env[e[1]] = (lname(e[1]), sty[1])
+                    self.stmts(body[1], None, out, ind + "    ", False)
+                    out.append(ind + "    pure ()")
+                    self.env = saved
+                    out.append(ind + "| none => pure ()")
                 elif e[0] == "blockexpr":
                     if e[1][2] is not None:
                         raise Unsupported("block statement with a value")
@@ -959,6 +1140,18 @@ class Emitter:
                     self.flush(pre, out, ind)
             else:
                 raise Unsupported("statement %s" % k)
+        if tail is not None and self.is_ok_unit(tail):
+            tail = None                                               # `Ok(())`: the unit result of a `Result<(), _>` function
+        if tail is not None and self.is_err(tail):
+            out.append(ind + self.err_fault(tail))
+            return
+        if tail is not None and self.ok_value(tail) is not None:
+            tail = self.ok_value(tail)
+        if tail is not None and tail[0] == "if" and tail[3] is not None and \
+                any(b[2] is not None and (self.is_err(b[2]) or self.ok_value(b[2]) is not None or self.is_ok_unit(b[2]))
+                    for b in (tail[2], tail[3])):
+            self.if_stmt(tail, ([], None), out, ind, is_fn_body, as_tail=True)
+            return
         if tail is not None:
             if tail[0] == "if" and (tail[2][1] or (tail[3] and tail[3][1])):
                 self.if_stmt(tail, ([], None), out, ind, is_fn_body, as_tail=True)
@@ -971,7 +1164,7 @@ class Emitter:
             else:
                 out.append(ind + "pure %s" % v)
         elif is_fn_body:
-            out.append(ind + self.wrap_return(None, UNIT))
+            out.append(ind + self.fallthrough())
 
     def assign(self, s, pre):
         place, op, rhs = s[1], s[2], s[3]
@@ -999,7 +1192,93 @@ class Emitter:
             v, _ = self.expr(rhs, pre, ty)
         else:
             v, _ = self.binop(("bin", op[:-1], place, rhs), pre, ty)
+        if place[0] == "field" and not place[2].isdigit() and place[1] != ("path", ["self"]):
+            base, bty = self.expr(place[1], [], None)
+            st = self.structs.get(bty[1]) if (bty and bty[0] == "N") else None
+            if not st or place[2] not in st["fields"]:
+                raise Unsupported("assignment to field .%s of %r" % (place[2], bty))
+            self.assign_place(place[1], "{ %s with %s := %s }" % (base, st["fieldmap"].get(place[2], place[2]), v), pre)
+            return
+        if place[0] == "field" and place[2].isdigit():
+            # a component of a pair: rebuild the pair
+            base, bty = self.expr(place[1], [], None)
+            if not (bty and bty[0] == "T" and len(bty[1]) == 2):
+                raise Unsupported("assignment to a component of %r" % (bty,))
+            pair = "(%s, %s.2)" % (v, base) if place[2] == "0" else "(%s.1, %s)" % (base, v)
+            self.assign_place(place[1], pair, pre)
+            return
         self.assign_place(place, v, pre)
+
+    def while_stmt(self, st, rest, out, ind, is_fn_body):
+        """`while c { body }` / `loop { body }`: a bounded iteration of a step function over the variables the body assigns.
+        The step returns `Ctl.next s` (iterate), `Ctl.brk s` (condition false / `break`) or `Ctl.ret r` (`return r`)."""
+        fuels = self.cfg.get("fuel", [])
+        if self.nloops >= len(fuels):
+            raise Unsupported("loop %d has no configured iteration bound" % (self.nloops + 1))
+        fuel = fuels[self.nloops]
+        self.nloops += 1
+        vs = sorted(self.in_scope(self.assigned(st[2], set())))
+        pat = "()" if not vs else (vs[0] if len(vs) == 1 else "(" + ", ".join(vs) + ")")
+        rty = self.cfg["_rty"]
+        lr = "lr%d" % self.nloops
+        out.append(ind + "let %s ← loopM (ρ := %s) (%s) (fun %s => do" % (lr, rty, fuel, pat))
+        saved_env, saved_loop = dict(self.env), self.loop
+        self.loop = pat
+        pre = []
+        c, _ = self.expr(st[1], pre, B)
+        self.flush(pre, out, ind + "    ")
+        out.append(ind + "    if %s then do" % c)
+        body = self.norm(st[2])
+        self.stmts(body[1], None, out, ind + "      ", True)
+        out.append(ind + "    else do")
+        out.append(ind + "      pure (Ctl.brk %s)) %s" % (pat, pat))
+        self.env, self.loop = saved_env, saved_loop
+        has_ret = self.contains_return(st[2])
+        if not is_fn_body:
+            # inside a nested block (an `if` branch that goes on afterwards): the loop must not `return`; its final state
+            # is rebound and the enclosing block continues
+            if has_ret:
+                raise Unsupported("`return` inside a loop that is nested in a non-final block")
+            out.append(ind + "let %s ← (match %s with | .brk st => pure st | .next _ => fault .fuel | .ret _ => fault .fuel)" % (pat, lr))
+            self.stmts(rest[0], rest[1], out, ind, is_fn_body)
+            return
+        out.append(ind + "match %s with" % lr)
+        if not has_ret:
+            out.append(ind + "| .ret _ => fault .fuel")
+        elif self.loop is not None:
+            out.append(ind + "| .ret r => pure (Ctl.ret r)")
+        else:
+            out.append(ind + "| .ret r => return r")
+        out.append(ind + "| .next _ => fault .fuel")
+        out.append(ind + "| .brk %s => do" % pat)
+        n0 = len(out)
+        self.stmts(rest[0], rest[1], out, ind + "  ", is_fn_body)
+        if len(out) == n0:
+            out.append(ind + "  pure ()")
+
+    def in_scope(self, names):
+        """of the assigned names, those that denote variables declared OUTSIDE the block (locals of the block itself are
+        not part of the state that flows out of it)"""
+        known = {v[0] for v in self.env.values()}
+        return {n for n in names if n in known or n.startswith("self_")}
+
+    def contains_return(self, block):
+        def in_expr(e):
+            if e[0] == "if":
+                return self.contains_return(e[2]) or (e[3] is not None and self.contains_return(e[3]))
+            if e[0] == "blockexpr":
+                return self.contains_return(e[1])
+            if e[0] == "iflet":
+                return self.contains_return(e[3])
+            return False
+        for s in block[1]:
+            if s[0] == "return":
+                return True
+            if s[0] == "while" and self.contains_return(s[2]):
+                return True
+            if s[0] == "expr" and in_expr(s[1]):
+                return True
+        return block[2] is not None and in_expr(block[2])
 
     def if_stmt(self, e, rest, out, ind, is_fn_body, as_tail=False):
         """returns True when the rest of the statement list has been emitted inside the else branch"""
@@ -1018,13 +1297,25 @@ class Emitter:
             self.stmts(else_b[1], else_b[2], out, ind + "  ", is_fn_body)
             self.env = saved
             return True
+        if else_b is not None and self.diverges(then_b) and self.diverges(else_b):
+            out.append(ind + "if %s then do" % c)
+            saved = dict(self.env)
+            self.stmts(then_b[1], then_b[2], out, ind + "  ", is_fn_body)
+            self.env = dict(saved)
+            out.append(ind + "else do")
+            self.stmts(else_b[1], else_b[2], out, ind + "  ", is_fn_body)
+            self.env = saved
+            return True
         if self.diverges(then_b) and else_b is None:
             out.append(ind + "if %s then do" % c)
             saved = dict(self.env)
-            self.stmts(then_b[1], None, out, ind + "  ", is_fn_body)
+            self.stmts(then_b[1], then_b[2], out, ind + "  ", is_fn_body)
             self.env = saved
             out.append(ind + "else do")
+            n0 = len(out)
             self.stmts(rest[0], rest[1], out, ind + "  ", is_fn_body)
+            if len(out) == n0:
+                out.append(ind + "  pure ()")
             return True
         if then_b[2] is not None or (else_b and else_b[2] is not None):
             raise Unsupported("`if` statement with a value")
@@ -1034,7 +1325,7 @@ class Emitter:
         self.assigned(then_b, vs)
         if else_b:
             self.assigned(else_b, vs)
-        vs = sorted(vs)
+        vs = sorted(self.in_scope(vs))
         pat = "()" if not vs else (vs[0] if len(vs) == 1 else "(" + ", ".join(vs) + ")")
         out.append(ind + "let %s ← (if %s then do" % (pat, c))
         saved = dict(self.env)
@@ -1099,7 +1390,9 @@ def translate(src, cfg, calls, consts, structs):
             p.eat(":")
             ty = alias(p.ty())
             ov = cfg.get("params", {}).get(name)
-            if ov:
+            if cfg.get("reader") == name:
+                binders.append("(%s : Elems)" % name)
+            elif ov:
                 binders.append(ov[0]); em.env[name] = (ov[2], ov[1])
             else:
                 if ty[0] == "N" and ty[1] in cfg.get("generic_arrays", ()):
@@ -1115,6 +1408,13 @@ def translate(src, cfg, calls, consts, structs):
         em.ret = UNIT
     if "ret" in cfg:
         em.ret = cfg["ret"]
+    rty0 = lean_ty(em.ret, structs)
+    if em.selfmut:
+        rty0 = cfg["self"]["lean"] if em.ret == UNIT else "(%s × %s)" % (rty0, cfg["self"]["lean"])
+    if cfg.get("reader"):
+        rty0 = "(%s × Elems)" % rty0
+    cfg = dict(cfg, _rty=rty0)
+    em.cfg = cfg
     body = Parser(lex(body_txt)).block()
     out = []
     if em.selfmut:
@@ -1127,6 +1427,8 @@ def translate(src, cfg, calls, consts, structs):
     rty = lean_ty(em.ret, structs)
     if em.selfmut:
         rty = cfg["self"]["lean"] if em.ret == UNIT else "(%s × %s)" % (rty, cfg["self"]["lean"])
+    if cfg.get("reader"):
+        rty = "(%s × Elems)" % rty
     if mutargs:
         # a free function taking `&mut array`: its final value is the array
         rty = "(Array Word)" if em.ret == UNIT else "(%s × Array Word)" % rty
